@@ -283,7 +283,8 @@ Proof. vm_compute. reflexivity. Qed.
 
 (* the monitors reject: context.Canceled from a waiter whose deadline-like context ended (clause 6: Canceled is not
    that context's error, and its error channel was not closed), DeadlineExceeded from a waiter with a plain context
-   (clause 9), the cancellation cause from a waiter whose context has no cause (clause 10) *)
+   (clause 9), the cancellation cause, even from a waiter whose with-cause context was cancelled (clause 10: the context's
+   error is ctx.Err() = Canceled) *)
 Example c15_example_monitor_rejects_canceled_for_deadline_ctx :
   existsb (fun i => match i with PropFalse 15 6 3 => true | _ => false end)
     (run_check_ccontainer [0; 0]%N [[4; 0; 0; 0; 2]; [5; 0]; [5; 0]; [6; 0]]%N [[1]; [7]; [2]; [4]]%N) = true.
@@ -296,9 +297,9 @@ Example c15_example_monitor_rejects_deadline_for_plain_ctx :
   existsb (fun i => match i with PropFalse 15 9 3 => true | _ => false end)
     (run_check_ccontainer [0; 0]%N [[4; 0; 0; 0; 0]; [5; 0]; [5; 0]; [6; 0]]%N [[1]; [7]; [2]; [13]]%N) = true.
 Proof. vm_compute. reflexivity. Qed.
-Example c15_example_monitor_rejects_cause_for_plain_ctx :
+Example c15_example_monitor_rejects_cause :
   existsb (fun i => match i with PropFalse 15 10 3 => true | _ => false end)
-    (run_check_ccontainer [0; 0]%N [[4; 0; 0; 0; 0]; [5; 0]; [5; 0]; [6; 0]]%N [[1]; [7]; [2]; [14]]%N) = true.
+    (run_check_ccontainer [0; 0]%N [[4; 0; 0; 0; 4]; [5; 0]; [5; 0]; [6; 0]]%N [[1]; [7]; [2]; [14]]%N) = true.
 Proof. vm_compute. reflexivity. Qed.
 
 (* ---- comparators that are not reflexive (eqcode 5 never equal, 6 a < b), NewCContainerVT (eqcode 7) ----
